@@ -464,8 +464,8 @@ def _tg_entries(draw, p, max_n, points=False, min_n=1, tok=None):
             b = (pos * 16 + draw(st.integers(delta[pos], 7))) / (16 * scale)
         out.append([draw(tok if tok is not None else _TG_TOKEN), a, b])
         gap = draw(inc)
-        if ln + gap == 0:
-            gap = 1
+        if ln + gap == 0 and not (points == "exact" and draw(st.integers(0, 2)) == 0):
+            gap = 1  # (in an explicit point tier the next point may coincide with this one: file order is kept)
         pos = pos + ln + gap
     return out, ongrid
 
@@ -521,6 +521,8 @@ def _tg_expected(entries, p, is_point, fill, tier_xmin=None, tier_xmax=None):
     ps = [tx.dec_round(e[1], p) for e in entries]
     pe = [tx.dec_round(e[2], p) for e in entries]
     for i in range(len(entries) - 1):
+        if is_point and entries[i][1] == entries[i + 1][1]:
+            continue  # coincident points
         if not (ps[i] < ps[i + 1] and pe[i] <= ps[i + 1]):
             raise Reject("entries not strictly ordered at print precision")
     if is_point:
@@ -569,6 +571,8 @@ def _tg_classes(case, is_point):
         cl.append("label_with_odd_blank")
     if any(e[2] >= 1000 for e in entries):
         cl.append("time_ge_1000s")
+    if is_point and any(a[1] == b[1] and a[0] > b[0] for a, b in zip(entries, entries[1:])):
+        cl.append("coincident_points_labels_descending")
     if case["point_tier"] is False and any(e[1] == e[2] for e in entries):
         cl.append("zero_length_interval")
     if any(e[1] != e[2] and tx.dec_round(e[1], p) == tx.dec_round(e[2], p) for e in entries):
@@ -593,7 +597,8 @@ def _tg_write_read(case, data, f):
               "written tier type and number format as documented",
           required_classes=["gap", "time_ge_10s", "integer_digits_change", "precision_not3", "point_tier",
                             "interval_tier", "fill_requested", "offgrid", "point_inferred_within_precision",
-                            "label_looks_like_syntax", "label_with_odd_blank", "time_ge_1000s"])
+                            "label_looks_like_syntax", "label_with_odd_blank", "time_ge_1000s",
+                            "coincident_points_labels_descending"])
 def _tg_roundtrip(case):
     data = _data()
     p = case["p"]
